@@ -127,7 +127,8 @@ func runC14(c *fw.Ctx) {
 	// families" must hold for every list, whatever position fails and whichever family a later element re-uses
 	mv := func(n int32) *bt.GC { return &bt.GC{Kind: "maxver", N: n} }
 	elems := []bt.Mod{{ID: "g", Op: "create", GC: mv(7)}, {ID: "h", Op: "create", GC: mv(2)}, {ID: "g", Op: "drop"}, {ID: "nofam", Op: "drop"},
-		{ID: "g", Op: "update", GC: mv(5)}, {ID: "nofam", Op: "update", GC: mv(1)}, {ID: "f", Op: "drop"}, {ID: "f", Op: "create", GC: mv(4)}, {ID: "h", Op: "update", GC: mv(9)}, {ID: "h", Op: "drop"}}
+		{ID: "g", Op: "update", GC: mv(5)}, {ID: "nofam", Op: "update", GC: mv(1)}, {ID: "f", Op: "drop"}, {ID: "f", Op: "create", GC: mv(4)}, {ID: "h", Op: "update", GC: mv(9)}, {ID: "h", Op: "drop"},
+		{ID: "f", Op: "update"}} // an update to "no rule" removes the rule the family had
 	var lists [][]bt.Mod
 	for _, a := range elems {
 		for _, b := range elems {
